@@ -323,6 +323,31 @@ def run(tier, seed, sessim_bin, env_names=()):
             res["diagnostics_seen_by_rustc"] += diags
             if bad:
                 divergent.append((plan, bad[0], mods.get(bad[0])))
+    # position sweep: every generated item alone, at many byte offsets in its file (a leading comment of
+    # growing length): whatever reads span positions — and compares or formats them — meets the digit-count
+    # boundaries (…99|100…, …999|1000…) here
+    # (the module header puts an item at offset ~100: pads up to 100 cross …99|100…, pads 800–1000 cross …999|1000…)
+    pads = (list(range(0, 100, 20)) + list(range(800, 1000, 8))) if tier == "quick" else (list(range(0, 1300, 4)) + list(range(9700, 10000, 12)))
+    sweep_items = [it for it in items if it["kind"].startswith("family:")]
+
+    def sweep_one(job):
+        it, pad = job
+        mods, _, _, _, _ = run_rustc("s%d_%d" % (it["id"], pad), [it], 0, {}, deps, rlib, {"file_pad": pad})
+        return it, pad, mods.get(it["id"]) != ref[it["id"]]
+
+    res["position_sweep_runs"] = 0
+    sweep_bad = []
+    with cf.ThreadPoolExecutor(max_workers=16) as ex:
+        for it, pad, bad in ex.map(sweep_one, [(it, pad) for it in sweep_items for pad in pads]):
+            res["position_sweep_runs"] += 1
+            res["rustc_runs"] += 1
+            res["module_comparisons"] += 1
+            if bad:
+                sweep_bad.append((it["id"], pad))
+    sweep_bad.sort()
+    for item_id, pad in sweep_bad[:1]:
+        plan = {"v": 100000 + pad, "order": [item_id], "entropy": 0, "junk": {}, "rend": {"file_pad": pad}}
+        divergent.append((plan, item_id, None))
     divergent.sort(key=lambda d: d[0]["v"])
     for plan, probe, observed in divergent[:2]:
         res["violations"].append(minimise(seed, plan, probe, by_id, ref, deps, rlib))
@@ -386,7 +411,8 @@ def minimise(seed, plan, probe, by_id, ref, deps, rlib):
     rend = {k: v for k, v in rend.items() if k in order or k in ("macro_pad", "file_pad")}
     _, observed = diverges(order, probe, entropy, junk, by_id, ref, deps, rlib, rend=rend)
     it = by_id[probe]
-    why = ("depends on where the `macro_rules!` that produces part of the item sits in its own file (line numbers of two files compared)" if len(order) == 1 and "macro_pad" in rend else
+    why = ("depends on the byte offset of the item in its file (span positions)" if len(order) == 1 and rend.get("file_pad") and probe not in rend and "macro_pad" not in rend else
+           "depends on where the `macro_rules!` that produces part of the item sits in its own file (line numbers of two files compared)" if len(order) == 1 and "macro_pad" in rend else
            "depends on how the item's tokens are written (blanks, line breaks, comments: span positions / source text)" if len(order) == 1 and probe in rend else
            "depends on the process's entropy (hash seeds)" if len(order) == 1 and entropy != 0 else
            "depends on the other items expanded in the same rustc process" if len(order) > 1 else "depends on the process environment")
